@@ -114,6 +114,16 @@ func cmdReplayCosOpt(args []string) error {
 					check("GetCosmeticOption(the referrer matches "+ref+")", optionSet(rules.NewMatchingResult(rs, []*rules.NetworkRule{rr}).GetCosmeticOption()), "")
 				}
 			}
+			// a $badfilter rule is never a result (Verdict!RemoveBadfilter): alone, with nothing to disable, it leaves the
+			// request without a basic rule and every cosmetic option on; next to its twin it takes the twin with it
+			if len(rs) == 1 && len(mods) > 0 {
+				if bf, err := rules.NewNetworkRule(text+",badfilter", 1); err == nil {
+					want = "css,gcss,js"
+					check("GetCosmeticOption(the $badfilter rule alone)", optionSet(rules.NewMatchingResult([]*rules.NetworkRule{bf}, nil).GetCosmeticOption()), "")
+					check("GetCosmeticOption(the rule and its $badfilter twin)", optionSet(rules.NewMatchingResult([]*rules.NetworkRule{rs[0], bf}, nil).GetCosmeticOption()), "")
+					check("GetCosmeticOption(the $badfilter twin and the rule)", optionSet(rules.NewMatchingResult([]*rules.NetworkRule{bf, rs[0]}, nil).GetCosmeticOption()), "")
+				}
+			}
 			want = exp
 			// through the engine: the option drives which selectors the cosmetic engine returns
 			// (a generic rule, a rule for the host, and - for a second host, under a real public suffix - a rule for the
